@@ -103,3 +103,11 @@ Definition tile (g : grid) (perc : bool * bool * bool) : grid :=
 Definition perc_stop (d : node) (perc : bool * bool * bool) (s : node) : node :=
   let '(nx, ny, nz) := d in let '(px, py, pz) := perc in let '(x, y, z) := s in
   (x + (if px then nx else 0), y + (if py then ny else 0), z + (if pz then nz else 0)).
+
+(* the loop of optimal_percolating_path over the peaks: a peak without a path is skipped; a path replaces the best one only if strictly cheaper *)
+Definition best_upd (best : option Z) (x : option Z) : option Z :=
+  match x with
+  | None => best
+  | Some c => match best with None => Some c | Some bc => if c <? bc then Some c else Some bc end
+  end.
+Definition best_cost (costs : list (option Z)) : option Z := fold_left best_upd costs None.
